@@ -59,6 +59,10 @@ def generate(ck):
         {"cls": "single", "table": {"kind": "shipped", "name": "haynesville"}, "nx": 50, "p_i": 8000.0, "p_f": 1000.0, "r": 8, "t_end": 6.0, "levels": None},
         # diffusivity falling with pressure: the configuration in which known finding K6 shows
         {"cls": "single", "table": {"kind": "synthetic", "family": "falling", "prm": [0.5, 0.5, 0.5], "n": 120, "p_lo": 50.0, "p_hi": 9000.0, "grid": "uniform", "seed": 0}, "nx": 25, "p_i": 8000.0, "p_f": 7200.0, "r": 16, "t_end": 5.0, "levels": None},
+        # moderately coarse (but consistent) tables with the initial pressure BETWEEN two rows, on a
+        # fine mesh: a few-per-cent bias in how the table is scaled at p_i shows here
+        {"cls": "single", "table": {"kind": "synthetic", "family": "ideal", "prm": [0.5, 0.5, 0.5], "n": 37, "p_lo": 100.0, "p_hi": 9100.0, "grid": "uniform", "seed": 0}, "nx": 200, "p_i": 5225.0, "p_f": 600.0, "r": 8, "t_end": 8.0, "levels": None},
+        {"cls": "single", "table": {"kind": "synthetic", "family": "zlin", "prm": [0.4, 0.4, 0.5], "n": 46, "p_lo": 100.0, "p_hi": 9100.0, "grid": "uniform", "seed": 0}, "nx": 200, "p_i": 6300.0, "p_f": 3000.0, "r": 8, "t_end": 8.0, "levels": None},
         # two-rung ladders on exactly consistent tables
         {"cls": "single", "table": {"kind": "synthetic", "family": "const-diffusivity", "prm": [0.3, 0.6, 0.2], "n": 200, "p_lo": 50.0, "p_hi": 9000.0, "grid": "uniform", "seed": 0}, "nx": 25, "p_i": 8000.0, "p_f": 2000.0, "r": 8, "t_end": 6.0, "levels": None, "ladder": True},
         {"cls": "single", "table": {"kind": "synthetic", "family": "zlin", "prm": [0.3, 0.6, 0.2], "n": 400, "p_lo": 50.0, "p_hi": 9000.0, "grid": "uniform", "seed": 0}, "nx": 25, "p_i": 8000.0, "p_f": 7900.0, "r": 16, "t_end": 4.0, "levels": None, "ladder": True},
@@ -95,7 +99,7 @@ def generate(ck):
     return descs
 
 
-def table_inconsistency(fluid, tab, p_f, p_i):
+def table_inconsistency(fluid, tab, p_f, p_i, midpoint=False):
     """delta from the columns alone (see module docstring)."""
     order = np.argsort(np.asarray(tab["pressure"], dtype=float), kind="stable")
     P = np.asarray(tab["pressure"], dtype=float)[order]
@@ -111,7 +115,38 @@ def table_inconsistency(fluid, tab, p_f, p_i):
     slope = np.diff(rho[lo : hi + 1]) / np.diff(ms[lo : hi + 1])
     k_left = slope * al[lo:hi] / a_i / rho_i
     k_right = slope * al[lo + 1 : hi + 1] / a_i / rho_i
+    if midpoint:
+        # interval-centred value: the saw-tooth that linear interpolation of alpha adds inside every
+        # interval (zero-mean, it averages out of the recoveries) is removed; a genuine inconsistency
+        # between the columns is not
+        return float(np.max(np.abs(0.5 * (k_left + k_right) - 1)))
     return float(max(np.max(np.abs(k_left - 1)), np.max(np.abs(k_right - 1))))
+
+
+def gap_unexplained(out, fluid, tab, p_i, rf, rfd):
+    """(rf - rfd) minus the a-posteriori inconsistency integral G(t); None when not computable."""
+    pp, t = out["pp"], out["t"]
+    if pp is None or not {"compressibility", "viscosity", "z-factor"} <= set(tab if isinstance(tab, dict) else tab.columns):
+        return None
+    P, rho, mraw, c, mu, z = tables.sorted_columns(tab, "pressure", "density", "pseudopressure", "compressibility", "viscosity", "z-factor")
+    s_own = float(np.interp(p_i, P, c * mu * z / (2 * P)))
+    m_own = mraw * s_own
+    alpha = 1 / (c * mu)
+    a_i = float(np.interp(p_i, P, alpha))
+    rho_i = float(np.interp(p_i, P, rho))
+    ms_lib = tables.sorted_columns(dict(pressure=np.asarray(tab["pressure"], dtype=float), m=np.asarray(fluid.pvt_props["m-scaled"], dtype=float)), "m")[0]
+    p_field = np.interp(pp, ms_lib, P)
+    m_field = np.interp(p_field, P, m_own)
+    k = np.clip(np.searchsorted(P, p_field, side="right") - 1, 0, len(P) - 2)
+    slope = np.diff(rho) / np.diff(m_own)
+    kappa = slope[k] * np.interp(p_field, P, alpha) / a_i / rho_i
+    nx = pp.shape[1]
+    lap = np.zeros_like(m_field)
+    lap[:, 1:-1] = m_field[:, :-2] - 2 * m_field[:, 1:-1] + m_field[:, 2:]
+    lap[:, -1] = m_field[:, -2] - m_field[:, -1]
+    rate = ((kappa - 1) * lap)[:, 1:].sum(axis=1) * nx  # int (kappa - 1) m_xx dx, nodes beyond the pinned one
+    G = np.concatenate([[0.0], np.cumsum(rate[1:] * np.diff(t))])  # implicit: the new level's field drives the step
+    return (rf - rfd) - G
 
 
 def _one(ck, desc, nx):
@@ -187,6 +222,7 @@ def run_case(ck, desc):
     rho_i = float(np.interp(p_i, P, rho))
     ceiling = 1 - float(np.interp(p_min, P, rho)) / rho_i
     delta = table_inconsistency(fluid, tab, p_min, p_i)
+    delta_mid = table_inconsistency(fluid, tab, p_min, p_i, midpoint=True)
     ck.note_max("largest_table_inconsistency_used", delta if delta <= 0.25 else 0.0)
     if delta > 0.25:
         ck.count("tables_skipped_inconsistent")
@@ -242,7 +278,18 @@ def run_case(ck, desc):
     if not ck.margin("flux vs in-place gap <= first-order bound", gap, bound):
         ck.violation("recoveries-agree", {"gap": gap, "bound": bound, "gap/ceiling x nx": gap / ceiling * nx, "delta": delta, "jump_term": jump, "nx": nx, "ceiling": ceiling}, desc)
     ck.note_max("largest_(gap/ceiling - 1.25 delta) x nx", (gap / ceiling - 1.25 * delta) * nx)
-    obs = {"nx": nx, "gap/ceiling": gap / ceiling, "delta": delta, "rfd_end/ceiling": float(rfd[-1]) / ceiling, "K": Kc, "chi": chi}
+    # 4b. the sharp form of "widens the admissible gap by that amount and no more": the part of the gap
+    #     that the table's inconsistency explains is computed a posteriori along the ACTUAL field,
+    #     G(t) = int_0^t int (kappa(p(x,s)) - 1) m_xx dx ds, with kappa and the scaled pseudopressure
+    #     taken from the table columns by the harness itself (documented scaling c mu z / (2p) at p_i);
+    #     what is left must be first-order small
+    resid = gap_unexplained(out, fluid, tab, p_i, rf, rfd)
+    if resid is not None:
+        obs_resid = float(np.max(np.abs(resid)))
+        ck.note_max("largest_(unexplained gap / ceiling) x nx / K", obs_resid / ceiling * nx / Kc)
+        if not ck.margin("gap not explained by the table's inconsistency <= first-order bound", obs_resid, (Kc / nx + 0.6 * jump) * ceiling + 1e-12):
+            ck.violation("recoveries-agree", {"unexplained_gap": obs_resid, "bound": (Kc / nx + 0.6 * jump) * ceiling, "unexplained/ceiling x nx": obs_resid / ceiling * nx, "gap": gap, "delta": delta, "nx": nx}, desc)
+    obs = {"nx": nx, "gap/ceiling": gap / ceiling, "delta": delta, "delta_mid": delta_mid, "rfd_end/ceiling": float(rfd[-1]) / ceiling, "K": Kc, "chi": chi}
     # 5. gap shrinks under refinement (two-rung ladder, constant drawdown, consistent tables only)
     if desc.get("ladder") and not levels and nx == 25:
         fine = _one(ck, desc, 200)
